@@ -156,14 +156,17 @@ Qed.
 Lemma size_ok_alt c size : size_ok c size = negb ((0 <? c_max_size c)%Z && (c_max_size c <? size)%Z).
 Proof. unfold size_ok. rewrite negb_andb, !Z.leb_antisym. reflexivity. Qed.
 
-Lemma ext_events_calls c p size ff : ff_open ff = false -> ff_fstat ff = false -> forall es checked,
+Lemma req_no_stat_fault c e p size ff : ff_stat ff = false -> req c e p size ff = req c e p size no_ff.
+Proof. intros H. unfold req. rewrite H. reflexivity. Qed.
+
+Lemma ext_events_calls c p size ff : ff_open ff = false -> ff_fstat ff = false -> ff_stat ff = false -> forall es checked,
   calls (ext_events c p size ff es checked) =
-  if checked || size_ok c size then map (fun e => (e, p)) (filter (fun e => c_required c e p) es) else [].
+  if checked || size_ok c size then map (fun e => (e, p)) (filter (fun e => req c e p size ff) es) else [].
 Proof.
-  intros FO FS. rewrite size_ok_alt.
-  induction es as [|e es IH]; intros checked; cbn [ext_events calls filter map].
+  intros FO FS FT. rewrite size_ok_alt.
+  induction es as [|e es IH]; intros checked; cbn [ext_events calls filter map]; rewrite ?FT; cbn [orb].
   - destruct (checked || _); reflexivity.
-  - destruct (c_required c e p).
+  - destruct (req c e p size ff).
     + rewrite FO, FS.
       destruct (0 <? c_max_size c)%Z, checked, (c_max_size c <? size)%Z; cbn [andb negb orb app calls map];
         try reflexivity; rewrite IH; cbn [andb negb orb]; reflexivity.
@@ -173,13 +176,14 @@ Qed.
 Lemma file_call_calls c ms p n k size d ff : ff_clean ff = true ->
   calls (call_events c (HC ms p (File n k size d ff) false)) =
   if kind_accepted c k && negb (c_gitignore c && gi_match_stack c ms p false) && size_ok c size
-  then map (fun e => (e, p)) (filter (fun e => c_required c e p) (c_exts c)) else [].
+  then map (fun e => (e, p)) (filter (fun e => req c e p size no_ff) (c_exts c)) else [].
 Proof.
-  intros FC. unfold ff_clean in FC. apply andb_true_iff in FC as [FC _]. apply andb_true_iff in FC as [FO FS].
-  apply negb_true_iff in FO, FS.
+  intros FC. unfold ff_clean in FC. apply andb_true_iff in FC as [FC FT]. apply andb_true_iff in FC as [FO FS].
+  apply negb_true_iff in FO, FS, FT.
   cbn [call_events calls].
   destruct (kind_accepted c k && negb (c_gitignore c && gi_match_stack c ms p false)); cbn [andb]; [|reflexivity].
-  rewrite ext_events_calls by assumption. reflexivity.
+  rewrite ext_events_calls by assumption. destruct (size_ok c size); [|reflexivity]. cbn [orb]. f_equal.
+  apply filter_ext. intros e. apply req_no_stat_fault. exact FT.
 Qed.
 
 Lemma dir_call_calls c ms p n ch df b : calls (call_events c (HC ms p (Dir n ch df) b)) = [].
@@ -197,10 +201,10 @@ Definition stack_rep (c : cfg) (t : node) (ms : stack) (q : path) : Prop :=
   gi_match_stack c ms (mpath (q ++ s)) isdir = gi_anc c t (proper_prefixes q) (q ++ s) isdir.
 
 Lemma should_skip_eq c t ms q :
-  is_none (c_re c) || is_none (c_glob c) = true -> stack_rep c t ms q ->
+  stack_rep c t ms q ->
   should_skip_dir c ms (mpath q) = skipped_dir c t q.
 Proof.
-  intros Hre SR. unfold should_skip_dir, skipped_dir, gitignored.
+  intros SR. unfold should_skip_dir, skipped_dir, gitignored.
   fold (gi_anc c t (proper_prefixes q) q true).
   assert (G : c_gitignore c && gi_match_stack c ms (mpath q) true = c_gitignore c && gi_anc c t (proper_prefixes q) q true).
   { destruct (c_gitignore c) eqn:E; [|reflexivity]. cbn [andb].
@@ -209,8 +213,7 @@ Proof.
   destruct (mem_path (mpath q) (c_skip_list c)); [reflexivity|].
   destruct (c_ignore_subdirs c && negb (mem_path (mpath q) (c_paths c))); [reflexivity|].
   destruct (c_gitignore c && gi_anc c t (proper_prefixes q) q true); [reflexivity|].
-  cbn [orb]. destruct (c_re c) as [re|], (c_glob c) as [gl|]; cbn [opt_match is_none orb] in *;
-    try discriminate; rewrite ?orb_false_r; reflexivity.
+  cbn [orb]. unfold opt_match. destruct (c_re c) as [re|]; [destruct (re (mpath q)); reflexivity|reflexivity].
 Qed.
 
 Lemma is_prefix_app a b : is_prefix a (a ++ b) = true.
@@ -220,22 +223,27 @@ Lemma skipn_app_exact {A} (a b : list A) : skipn (length a) (a ++ b) = b.
 Proof. induction a; cbn; [reflexivity|exact IHa]. Qed.
 
 (* entering directory q (children ch) with matcher m parsed from it keeps the representation for each child *)
+Lemma gi_domain_mpath q : ~ In DOT q -> gi_domain (mpath q) = q.
+Proof.
+  intros ND. unfold gi_domain. destruct q as [|x q]; [reflexivity|]. cbn [mpath].
+  destruct (ln_eqb (x :: q) [DOT]) eqn:E; [|reflexivity]. apply ln_eqb_eq in E. inversion E; subst. exfalso. apply ND. left. reflexivity.
+Qed.
+
 Lemma stack_rep_child c t ms q n0 ch df m (n : N) :
   lookup_from t q = Some (Dir n0 ch df) ->
-  (c_gitignore c = true -> gi_of t [] = None) ->
   ~ In DOT q -> n <> DOT ->
   fault_free (Dir n0 ch df) = true ->
   parse_dir_gi (mpath q) ch = GiOk m ->
   stack_rep c t ms q -> stack_rep c t (m :: ms) (q ++ [n]).
 Proof.
-  intros HL Hroot ND Hn FF PG SR G s isdir.
+  intros HL ND Hn FF PG SR G s isdir.
   rewrite proper_prefixes_snoc. unfold gi_anc. rewrite existsb_app. fold (gi_anc c t (proper_prefixes q) ((q ++ [n]) ++ s) isdir).
   cbn [existsb]. rewrite orb_false_r.
   unfold gi_match_stack. cbn [existsb]. fold (gi_match_stack c ms (mpath ((q ++ [n]) ++ s)) isdir).
   rewrite <- app_assoc. rewrite (SR G ([n] ++ s) isdir). rewrite orb_comm. f_equal.
   assert (NE : q ++ [n] ++ s <> []) by (destruct q; discriminate).
   rewrite (mpath_nonempty _ NE).
-  unfold gi_of. rewrite HL. unfold parse_dir_gi in PG.
+  unfold gi_of. rewrite HL. unfold parse_dir_gi in PG. rewrite (gi_domain_mpath q ND) in PG.
   rewrite fault_free_dir in FF. apply andb_true_iff in FF as [_ FF].
   destruct (find_child GI ch) as [[gn gk gs gd gff|gn gl gdf]|] eqn:FC.
   - (* .gitignore is a file *)
@@ -243,14 +251,9 @@ Proof.
     rewrite forallb_forall in FF. specialize (FF _ Hin). cbn [fault_free] in FF. unfold ff_clean in FF.
     apply andb_true_iff in FF as [FF _]. apply andb_true_iff in FF as [FO _]. apply negb_true_iff in FO.
     rewrite FO in PG. inversion PG; subst m. unfold gi_match.
-    destruct q as [|x q].
-    + (* the root: domain ["."] is no prefix of any path *)
-      exfalso. specialize (Hroot G). unfold gi_of in Hroot. cbn [lookup_from] in HL, Hroot.
-      inversion HL; subst t. rewrite FC in Hroot. discriminate.
-    + cbn [mpath].
-      assert (L : (length (x :: q) <? length ((x :: q) ++ [n] ++ s))%nat = true).
-      { apply Nat.ltb_lt. rewrite app_length. cbn [length app]. lia. }
-      rewrite L, is_prefix_app, skipn_app_exact. reflexivity.
+    assert (L : (length q <? length (q ++ [n] ++ s))%nat = true).
+    { apply Nat.ltb_lt. rewrite app_length. cbn [length app]. lia. }
+    rewrite L, is_prefix_app, skipn_app_exact. reflexivity.
   - destruct (df_open gdf); [discriminate|]. inversion PG; reflexivity.
   - inversion PG; reflexivity.
 Qed.
@@ -330,14 +333,11 @@ Proof.
 Qed.
 
 Theorem sched_calls_spec c t :
-  is_none (c_re c) || is_none (c_glob c) = true ->
-  (c_gitignore c = true -> gi_of t [] = None) ->
   forall nd q ms,
   lookup_from t q = Some nd -> ~ In DOT q -> wf_tree nd = true -> fault_free nd = true ->
   stack_rep c t ms q ->
   sched_calls c ms (mpath q) nd = expected_from c t q nd.
 Proof.
-  intros Hre Hroot.
   induction nd as [n k sz d ff|n ch df IH] using node_ind2; intros q ms HL ND WF FF SR.
   - (* file *)
     unfold sched_calls. cbn [schedule flat_map]. rewrite app_nil_r.
@@ -352,13 +352,13 @@ Proof.
       specialize (SR E [] false). rewrite app_nil_r in SR. exact SR. }
     rewrite G.
     assert (F : filter (fun e => wanted_from c t q e (q, k, sz)) (c_exts c) =
-                filter (fun e => (kind_accepted c k && negb (gitignored c t q false)) && c_required c e (mpath q) && size_ok c sz) (c_exts c)).
+                filter (fun e => (kind_accepted c k && negb (gitignored c t q false)) && req c e (mpath q) sz no_ff && size_ok c sz) (c_exts c)).
     { apply filter_ext. intros e. unfold wanted_from. rewrite R. reflexivity. }
     rewrite F, filter_conj.
     destruct (kind_accepted c k && negb (gitignored c t q false) && size_ok c sz); reflexivity.
   - (* directory *)
     unfold sched_calls. rewrite schedule_dir. cbn [flat_map]. rewrite calls_app, dir_call_calls. cbn [app].
-    unfold dir_decision. rewrite (should_skip_eq c t ms q Hre SR).
+    unfold dir_decision. rewrite (should_skip_eq c t ms q SR).
     destruct (skipped_dir c t q) eqn:SK.
     + rewrite expected_from_skipped by exact SK. reflexivity.
     + rewrite wf_tree_dir in WF. apply andb_true_iff in WF as [WN WC].
@@ -369,7 +369,7 @@ Proof.
                                 /\ forall nm : N, nm <> DOT -> stack_rep c t ms' (q ++ [nm])).
       { destruct (c_gitignore c) eqn:G.
         - destruct (parse_dir_gi_ff (mpath q) ch FC) as [m PG]. rewrite PG. exists (m :: ms). split; [reflexivity|].
-          intros nm Hnm. eapply stack_rep_child; try eassumption. intros _. apply Hroot. reflexivity.
+          intros nm Hnm. eapply stack_rep_child; try eassumption.
         - exists ms. split; [reflexivity|]. intros nm _ G'. congruence. }
       destruct Hms as (ms' & -> & SR').
       rewrite FO, sched_children_none, flat_map_flat_map, calls_flat_map.
